@@ -2,13 +2,14 @@
 # usage: seedmatrix_par.sh [workers] [seed-glob]
 # Parallel variant of seedmatrix.sh on scratch worktrees (/tmp/seedwt-<i>, removed at the end); writes seeded/matrix.tsv.
 n=${1:-3}; glob=${2:-C*}
-out=/verif/seeded/matrix.tsv
+V=$(cd "$(dirname "$0")/.." && pwd)   # the checkout the matrix runs from (a vp run snapshot works)
+out=$V/seeded/matrix.tsv
 tmp=/dev/shm/seedmatrix.$$; mkdir -p $tmp
-ls -d /verif/seeded/$glob/ | sort > $tmp/all
+ls -d $V/seeded/$glob/ | sort > $tmp/all
 i=0
 while [ $i -lt $n ]; do
   (
-    wt=/tmp/seedwt-$i
+    wt=/tmp/seedwt-$$-$i
     git -C /repo worktree remove --force $wt 2>/dev/null
     git -C /repo worktree add -q --detach $wt HEAD
     k=0
@@ -16,7 +17,7 @@ while [ $i -lt $n ]; do
       if [ $((k % n)) -eq $i ]; then
         s=$(basename $d); prop=$(echo $s | cut -c1-3)
         also=""; [ -f $d/also ] && also=$(cat $d/also)
-        /verif/tools/seedrun_wt.sh $wt $d/patch.diff $prop $also 2>&1 | grep -a "CAUGHT\|MISSED\|INCONCLUSIVE\|does not apply" | while read id verdict rest; do
+        $V/tools/seedrun_wt.sh $wt $d/patch.diff $prop $also 2>&1 | grep -a "CAUGHT\|MISSED\|INCONCLUSIVE\|does not apply" | while read id verdict rest; do
           case "$id" in patch) printf "%s\t%s\t%s\t%s\n" "$s" "$prop" "NOAPPLY" "$id $verdict $rest";; *) printf "%s\t%s\t%s\t%s\n" "$s" "$id" "$verdict" "$rest";; esac
         done >> $tmp/part-$i
       fi
